@@ -115,15 +115,18 @@ class TVTB(nengo.Network):
             if unbind_left and unbind_right:
                 raise ValueError("Cannot unbind both sides at the same time.")
             elif unbind_left:
+                # TVTB binding is the matrix product of the operands, so undoing a
+                # binding on the left multiplies the inverted left input from the
+                # left: it takes the place of `vec`, the right input that of `mat`.
                 nengo.Connection(
                     self.input_left,
-                    self.mat,
+                    self.vec,
                     transform=inversion_matrix(dimensions),
                     synapse=None,
                 )
                 nengo.Connection(
                     self.input_right,
-                    self.vec,
+                    self.mat,
                     synapse=None,
                 )
             else:
